@@ -51,6 +51,7 @@ def cases(tier):
     conts = {'array-double': {'k': 'array', 'of': D}, 'array-scaled': {'k': 'array', 'of': SC(0.1)},
              'array-enum': {'k': 'array', 'of': ENUM},
              'tuple': {'k': 'tuple', 'of': [D, I, ENUM, B]},
+             'tuple1': {'k': 'tuple', 'of': [I]}, 'tuple1-enum': {'k': 'tuple', 'of': [ENUM]},
              'struct': {'k': 'struct', 'of': {'x': D, 'n': I, 'e': ENUM}, 'optional': ['n']},
              'deep': {'k': 'array', 'of': {'k': 'struct', 'of': {'p': {'k': 'tuple', 'of': [SC(0.5), ENUM]}, 'q': I}}},
              }
@@ -65,6 +66,10 @@ def cases(tier):
               'struct-struct-opt': {'k': 'struct', 'of': {'inner': so, 'f': D}}}
     for n, s in nested.items():
         out.append({'fn': 'run_partial_client', 'id': f'partial-client/{n}', 'params': {'shape': s}})
+    # the scale changed after construction (setProperty, forwarded by an array, or a configuration override Param(scale=...))
+    for s0, s1 in ((0.1, 0.01), (0.5, 0.1), (0.01, 0.1), (1.0, 0.001), (0.001, 3.0)):
+        for how in ('direct', 'array', 'parameter'):
+            out.append({'fn': 'run_rescaled', 'id': f'rescaled/{s0}->{s1}/{how}', 'params': {'scales': [s0, s1], 'how': how}})
     return out
 
 
@@ -196,3 +201,39 @@ def run_partial_client(env, p):
 
 def json_kind_ok_partial(spec, e):
     return json_kind_ok(spec, e)
+
+
+def run_rescaled(env, p):
+    """export/import of a scaled integer use the scale the datatype has NOW"""
+    import frappy.datatypes as dt
+    s0, s1 = p['scales']
+    K = 'C02/rescaled'
+    if p['how'] == 'direct':
+        d = dt.ScaledInteger(s0, -100, 100)
+        d.export_value(1.0)            # (something may have been computed from the first scale)
+        d.setProperty('scale', s1)
+    elif p['how'] == 'array':
+        arr = dt.ArrayOf(dt.ScaledInteger(s0, -100, 100), 0, 3)
+        arr.export_value([1.0])
+        arr.setProperty('scale', s1)
+        d = arr.members
+    else:
+        from frappy.params import Parameter
+        par = Parameter('p', dt.ScaledInteger(s0, -100, 100), default=0)
+        par.datatype.export_value(1.0)
+        par.setProperty('scale', s1)
+        d = par.datatype
+    env.check(d.scale == s1, K + '/scale-not-changed', d.scale)
+    k = env.int('k', -M.KBOX * 4, M.KBOX * 4)
+    v = d.import_value(k)
+    env.check(M.eq(d.export_value(v), k), K + '/node-export-of-import-differs', [s0, s1])
+    env.check(M.absv(v - k * s1) <= abs(s1) * 1e-9 + 1e-12, K + '/import-uses-another-scale', [s0, s1])
+    info = d.export_datatype()
+    c = dt.get_datatype(info)
+    env.check(M.eq(c.export_value(c.import_value(k)), k), K + '/client-roundtrip-differs')
+    env.check(M.eq(c.import_value(d.export_value(v)), v) or M.absv(c.import_value(d.export_value(v)) - v) <= abs(s1) * 1e-9 + 1e-12,
+              K + '/client-import-of-node-export-differs', [s0, s1])
+    cp = d.copy()
+    env.check(M.eq(cp.export_value(v), k), K + '/copy-export-differs')
+    for t in REQUIRED_TAGS:
+        env.note(t)
